@@ -1,5 +1,6 @@
 import GateryModel.C01.Spec
 import GateryModel.C01.Rules2
+import GateryModel.C01.SeqLift
 /-!
 # C01 — property theorems
 
@@ -16,8 +17,12 @@ Three layers (DESIGN.md §5/C01, as built):
 * Rules (C01/Rules*.lean) — value-level soundness, for all four-state values and widths, of the rewrites performed by
   `cullMuxConditionNegations`, `mergeMuxes` (given the C14 verdict), `removeConstSelectMuxes`, `removeNoOps` (identity rewire),
   `removeIrrelevantComparisons`, `propagateConstants`; `cullMuxConditionNegations` is lifted to a netlist rewrite in context.
-Passes without a rule theorem (removeIrrelevantMuxes, mergeBinaryMuxChain, foldRegisterMuxEnableLoops, retiming, memory detection,
-tech mapping, export preparation) and all sequential behaviour are covered by the trace check only.
+* Time (C01/SeqLift.lean over Nodes/Seq.lean) — clocked netlists (single clock; registers with enable and synchronous reset as in
+  `Node_Register::simulateAdvance`, tied to the simulator by the driver's register-transition recheck): the congruence results hold at
+  every cycle of a stimulus of any length, by induction over the stimulus, for node rewrites combined with register re-declarations
+  that agree on defined evaluations; `foldRegisterMuxEnableLoops` (all four variants) is proved as such a re-declaration at value level.
+Passes without a rule theorem (removeIrrelevantMuxes, mergeBinaryMuxChain, retiming, memory detection, tech mapping, export
+preparation), multi-clock designs and memories are covered by the trace check only.
 -/
 namespace Gatery.C01.Props
 open Gatery.C01 Gatery.Nodes
@@ -104,6 +109,47 @@ theorem removeIrrelevantComparisons_rule (op : CmpOp) (hop : op = .EQ ∨ op = .
 /-- `propagateConstants`: folding a node whose output is fully defined with all non-constant inputs undefined. -/
 theorem propagateConstants_rule (k : NodeKind) (w : Nat) (insU ins : Ins) (h : InsCompat insU ins)
     (hd : (evalNode k w insU).allDef = true) : RuleSound (evalNode k w ins) (evalNode k w insU) := constFold_sound k w insU ins h hd
+
+/-! ### clocked circuits: every cycle of a stimulus of any length -/
+
+/-- Any number of rewrites of the combinational nodes together with a re-declaration of the registers that computes the same next
+    state on defined evaluations: a run free of undefined values is reproduced exactly — every node value at every cycle and the
+    register state after the stimulus — for stimuli of any length. -/
+theorem clocked_passes_preserve_defined {ok : Env → Prop} (a b : SeqNet) (hn : Rewrites ok a.nodes b.nodes) (hr : RegsAgree ok a b.regs)
+    (stim : List Cycle) (st : List BV4) (hd : RunDef ok a stim st) :
+    seqRun b stim st = seqRun a stim st ∧ seqState b stim st = seqState a stim st := seq_rewrites_defined a b hn hr stim st hd
+
+/-- Partially undefined stimulus and initial state with a defined concretisation: at no cycle and no node does a defined bit of the
+    rewritten circuit contradict the original circuit. -/
+theorem clocked_passes_preserve_compat {ok : Env → Prop} (a b : SeqNet) (hn : Rewrites ok a.nodes b.nodes) (hr : RegsAgree ok a b.regs)
+    (stim stim' : List Cycle) (hs : StimCompat stim stim') (st st' : List BV4) (hst : EnvCompat st st')
+    (hwa : StateWF a.regs st) (hwb : StateWF b.regs st) (hd : RunDef ok a stim' st') :
+    Forall2 ValsCompat (seqRun a stim st) (seqRun b stim st) :=
+  seq_rewrites_compat a b hn hr stim stim' hs st st st' hst hst hwa hwb hd
+
+/-- `foldRegisterMuxEnableLoops`: reg(d = mux(c; q, X)) → reg(d = X, en = c); reg(d = mux(c; X, q)) → reg(d = X, en = ¬c); with a previous
+    enable `e` the new enable is `e ∧ c` / `e ∧ ¬c`. The next register value never contradicts the original one and is identical when
+    the conditions are defined (with an undefined `e` and `c = 0` the new register keeps its value where the old one became undefined). -/
+theorem foldRegisterMuxEnableLoops_rule (w : Nat) (e c : B4) (q : BV4) (X : Option BV4) (hq : q.length = w) :
+    FoldSound c.isDef (regNext w (some (evalMux w [some [c], some q, X])) none q) (regNext w X (some [c]) q) ∧
+    FoldSound c.isDef (regNext w (some (evalMux w [some [c], X, some q])) none q) (regNext w X (some (notVal (some [c]))) q) ∧
+    FoldSound (e.isDef && c.isDef) (regNext w (some (evalMux w [some [c], some q, X])) (some [e]) q)
+      (regNext w X (some (andVal (some [e]) (some [c]))) q) ∧
+    FoldSound (e.isDef && c.isDef) (regNext w (some (evalMux w [some [c], X, some q])) (some [e]) q)
+      (regNext w X (some (andVal (some [e]) (some (notVal (some [c]))))) q) :=
+  ⟨foldEnable_sound_0 w c q X hq, foldEnable_sound_1 w c q X hq, foldEnable_sound_0_en w e c q X hq, foldEnable_sound_1_en w e c q X hq⟩
+
+/-- a toggle flip-flop: q' = q xor pin -/
+def exToggle : SeqNet :=
+  { nodes := [⟨.input 0, 1, []⟩, ⟨.input 1, 1, []⟩, ⟨.node (.logic .XOR) .bool, 1, [some 0, some 1]⟩],
+    regs := [{ w := 1, d := some 2, rst := none, en := none }] }
+
+-- the premises are satisfiable: a defined two-cycle run of a concrete clocked netlist
+open BV4 in
+example : RunDef (fun _ => True) exToggle [([[B4.t]], false), ([[B4.f]], false)] [[B4.f]] ∧ StateWF exToggle.regs [[B4.f]] := by
+  refine ⟨?_, .cons rfl .nil⟩
+  simp [RunDef, exToggle, ValsDef, evalNet, evalNetFrom, evalNetNode, gather, evalNode, evalLogic, tab, inBit, logicBit, B4.mk, B4.val,
+    B4.isDef, B4.ofBool, BV4.bit, nextState, regEdge, regNext, look, copyIn, BV4.allDef]
 
 /-! ### non-vacuity: a concrete netlist, a concrete rewrite sequence -/
 
